@@ -263,3 +263,108 @@ func (w *kindWalker) run(typeName string) (end string, tag kval, at ssa.Instruct
 	}
 	return "continues", last, nil
 }
+
+// evalIntFunc evaluates a module function of one integer parameter whose returns are integer constants chosen by comparisons
+// of the parameter with constants (a switch / if-chain over a kind) at the argument v. Nothing is executed: the CFG is
+// walked, every branch must be a comparison of the parameter with a constant.
+func evalIntFunc(fn *ssa.Function, v int64) (int64, bool) {
+	if fn == nil || fn.Blocks == nil || len(fn.Params) != 1 {
+		return 0, false
+	}
+	prm := fn.Params[0]
+	b := fn.Blocks[0]
+	for steps := 0; steps < 4096; steps++ {
+		last := b.Instrs[len(b.Instrs)-1]
+		switch x := last.(type) {
+		case *ssa.Return:
+			if len(x.Results) != 1 {
+				return 0, false
+			}
+			r := x.Results[0]
+			for {
+				if cv, ok := r.(*ssa.Convert); ok {
+					r = cv.X
+					continue
+				}
+				break
+			}
+			n, ok := constInt(r)
+			return n, ok
+		case *ssa.Jump:
+			b = b.Succs[0]
+		case *ssa.If:
+			bo, ok := x.Cond.(*ssa.BinOp)
+			if !ok {
+				return 0, false
+			}
+			var cst int64
+			var okc bool
+			swap := false
+			if stripConv(bo.X) == ssa.Value(prm) {
+				cst, okc = constInt(stripConv(bo.Y))
+			} else if stripConv(bo.Y) == ssa.Value(prm) {
+				cst, okc = constInt(stripConv(bo.X))
+				swap = true
+			}
+			if !okc {
+				return 0, false
+			}
+			l, r := v, cst
+			if swap {
+				l, r = cst, v
+			}
+			var t bool
+			switch bo.Op {
+			case token.EQL:
+				t = l == r
+			case token.NEQ:
+				t = l != r
+			case token.LSS:
+				t = l < r
+			case token.LEQ:
+				t = l <= r
+			case token.GTR:
+				t = l > r
+			case token.GEQ:
+				t = l >= r
+			default:
+				return 0, false
+			}
+			if t {
+				b = b.Succs[0]
+			} else {
+				b = b.Succs[1]
+			}
+		default:
+			return 0, false
+		}
+		// blocks between branches may only hold the comparisons themselves
+		for _, ins := range b.Instrs[:len(b.Instrs)-1] {
+			switch ins.(type) {
+			case *ssa.BinOp, *ssa.Convert, *ssa.ChangeType, *ssa.DebugRef:
+			default:
+				return 0, false
+			}
+		}
+	}
+	return 0, false
+}
+
+// constIntFuncTable: the function as a table over 0..255 (only non-zero values are entries), when it can be evaluated for
+// every argument.
+func constIntFuncTable(fn *ssa.Function) (map[int64]int64, bool) {
+	if fn == nil || len(fn.Params) != 1 || !isInt(fn.Params[0].Type()) || fn.Signature.Results().Len() != 1 || !isInt(fn.Signature.Results().At(0).Type()) {
+		return nil, false
+	}
+	out := map[int64]int64{}
+	for v := int64(0); v < 256; v++ {
+		n, ok := evalIntFunc(fn, v)
+		if !ok {
+			return nil, false
+		}
+		if n != 0 {
+			out[v] = n
+		}
+	}
+	return out, true
+}
